@@ -47,7 +47,7 @@ struct small_ptr {
     [[nodiscard]] auto compressed_value() const noexcept -> StorageType { return _value; }
 
     /// \brief Returns a raw pointer to Type.
-    [[nodiscard]] auto operator->() const -> Type* { return get(); }
+    [[nodiscard]] auto operator->() const -> Type* { return reinterpret_cast<Type*>(BaseAddress + _value); }
 
     /// \brief Dereference pointer to Type&.
     [[nodiscard]] auto operator*() -> Type& { return *get(); }
